@@ -1,4 +1,4 @@
-import AscaVerif.Model.Seg
+import AscaVerif.Model.Mods
 /-! Line-protocol driver for the model (compiled `lean_exe`; imports the model only — core Lean). -/
 open Asca
 
@@ -58,8 +58,83 @@ def dumpTables (what : List String) : IO Unit := do
       | some (_, _, nk, mask) => out.putStrLn s!"feat {i} {nk.toNat} {mask.toNat}"
       | none => pure ()
 
+/-! ## line protocol -/
+
+def parseO16 (t : String) : Option (Option (BitVec 16)) :=
+  if t == "-" then some none else t.toNat?.map (fun n => some (BitVec.ofNat 16 n))
+
+def parseSeg : List String → Option (Seg × List String)
+  | r :: m :: l :: p :: rest => do
+    let r ← r.toNat?; let m ← m.toNat?; let l ← l.toNat?; let p ← parseO16 p
+    pure ({ root := BitVec.ofNat 8 r, manner := BitVec.ofNat 8 m, laryngeal := BitVec.ofNat 8 l, place := p }, rest)
+  | _ => none
+
+/-- `0` absent, `+`, `-`, `a<codepoint>` alpha, `i<codepoint>` inverted alpha -/
+def parseMod (t : String) : Option (Option ModKind) :=
+  if t == "0" then some none
+  else if t == "+" then some (some (.bin .pos))
+  else if t == "-" then some (some (.bin .neg))
+  else if t.startsWith "a" then (t.drop 1).toNat?.map (fun c => some (.alpha (.alpha c)))
+  else if t.startsWith "i" then (t.drop 1).toNat?.map (fun c => some (.alpha (.inv c)))
+  else none
+
+def parseMods (ts : List String) : Option (Modifiers × List String) := do
+  let ns ← (ts.take 8).mapM parseMod
+  let fs ← ((ts.drop 8).take 26).mapM parseMod
+  if ns.length != 8 || fs.length != 26 then none
+  else pure ({ nodes := ns, feats := fs }, ts.drop 34)
+
+def showRes {α} (f : α → String) : Res α → String
+  | .ok a => f a
+  | .err e => s!"err {e}"
+  | .panic p => s!"panic {p}"
+  | .outOfFuel p => s!"fuel {p}"
+
+/-- `[in] > [out]` on a one-segment word, as the reference model of C04: match, then apply with the bindings. -/
+def opMRule (seg : Seg) (inm outm : Modifiers) : Res Seg :=
+  match Match.matchSegMods seg [] inm with
+  | .ok (true, al) =>
+    match seg.applySegMods al outm.nodes outm.feats false with
+    | .ok (s', _) => .ok s'
+    | .err e => .err e
+    | .panic p => .panic p
+    | .outOfFuel p => .outOfFuel p
+  | .ok (false, _) => .ok seg
+  | .err e => .err e
+  | .panic p => .panic p
+  | .outOfFuel p => .outOfFuel p
+
+def handleOp (line : String) : String :=
+  let ts := (line.splitOn " ").filter (· != "")
+  match ts with
+  | "mrule" :: rest =>
+    match parseSeg rest with
+    | some (seg, rest) =>
+      match parseMods rest with
+      | some (inm, rest) =>
+        match parseMods rest with
+        | some (outm, _) => showRes segLine (opMRule seg inm outm)
+        | none => "bad-op"
+      | none => "bad-op"
+    | none => "bad-op"
+  | "match" :: rest =>
+    match parseSeg rest with
+    | some (seg, rest) =>
+      match parseMods rest with
+      | some (m, _) => showRes (fun (b : Bool × Alphas) => b01 b.1) (Match.matchSegMods seg [] m)
+      | none => "bad-op"
+    | none => "bad-op"
+  | _ => "bad-op"
+
+partial def opsLoop (h : IO.FS.Stream) (out : IO.FS.Stream) : IO Unit := do
+  let line ← h.getLine
+  if line.isEmpty then return ()
+  out.putStrLn (handleOp (line.dropRightWhile (· == '\n')))
+  opsLoop h out
+
 def main (args : List String) : IO UInt32 := do
   match args with
   | ["enum-c18"] => enumC18; return 0
   | "tables" :: what => dumpTables what; return 0
+  | ["ops"] => opsLoop (← IO.getStdin) (← IO.getStdout); return 0
   | _ => IO.eprintln s!"unknown driver mode {args}"; return 2
